@@ -680,6 +680,17 @@ def case(args):
                 stats['by_mv'][str(views_mv)] = stats['by_mv'].get(str(views_mv), 0) + n
                 for s, t in v:
                     found.append(({'kind': 'monitor', 'signature': s, 'detail': t}, [], views_mv, False))
+            # the LIKE-pattern probes need no history (standard traits suffice): recorded without shrinking,
+            # and - nothing was re-run on this database - the history goes on
+            for (x, rds, vmv, um) in [f for f in found if f[0]['signature'] == LIKE_SIG]:
+                if not any(y['signature'] == LIKE_SIG for y in out['violations']):
+                    x['index'] = i
+                    x['replay'] = {'module': 'harness.props.c11', 'type': 'history+reads', 'seed': seed, 'ops': [], 'http': [],
+                                   'reads': [dict(rd, method='GET', path=read_path(rd), version='1.%d' % rd['mv']) for rd in rds],
+                                   'views_mv': None, 'expected': 'only traits whose name begins with the prefix',
+                                   'observed': x['detail']}
+                    out['violations'].append(x)
+            found = [f for f in found if f[0]['signature'] != LIKE_SIG]
             stop = bool(found)
             done = set()
             for (x, rds, vmv, um) in found:
